@@ -3068,6 +3068,8 @@ def _str_tokens(pe, st, v):
     for _ in range(4):
         if v != TOP and v[0] == "ref":
             v = pe._load_ptr(st, v[1])
+        elif v != TOP and v[0] == "adt" and v[1] in ("std::borrow::Cow", "alloc::borrow::Cow") and len(v[4]) == 1:
+            v = v[4][0]
         else:
             break
     if v == TOP:
@@ -3156,9 +3158,20 @@ def _seq_items(pe, v):
     return None
 
 
+def _uncow(pe, st, v):
+    """Cow::Borrowed(x) / Cow::Owned(x) -> x"""
+    for _ in range(3):
+        v = _deref_all(pe, st, v)
+        if v != TOP and v[0] == "adt" and v[1] in ("std::borrow::Cow", "alloc::borrow::Cow") and len(v[4]) == 1:
+            v = v[4][0]
+        else:
+            break
+    return v
+
+
 def _pystr(pe, st, v):
     """a fully known string (str constant or String of known code points) as a Python str, else None"""
-    v = _deref_all(pe, st, v)
+    v = _uncow(pe, st, v)
     if v == TOP:
         return None
     if v[0] == "str":
@@ -3670,6 +3683,63 @@ def _string_clone(pe, st, args, t):
     if v != TOP and v[0] == "string":
         return v
     raise _Abort("top", "clone of an unknown string")
+
+
+@pmodel("<std::borrow::Cow<'_, B> as std::ops::Deref>::deref", "std::borrow::Cow::<'_, B>::into_owned", "std::borrow::Cow::<'_, B>::to_mut",
+        "<std::borrow::Cow<'a, str> as std::convert::From<&'a str>>::from", "<std::borrow::Cow<'a, str> as std::convert::From<std::string::String>>::from")
+def _cow_ops(pe, st, args, t):
+    nm = (t.get("callee") or "").rsplit("::", 1)[1]
+    if nm == "from":
+        a = args[0]
+        return ("adt", "std::borrow::Cow", 0 if (a != TOP and a[0] == "ref") else 1, "Borrowed" if (a != TOP and a[0] == "ref") else "Owned", (a,))
+    v = _uncow(pe, st, args[0])
+    if v == TOP:
+        raise _Abort("top", "Cow::%s of an unknown value" % nm)
+    if nm == "deref":
+        return ("ref", ("const", v))
+    if nm == "into_owned":
+        toks = _str_tokens(pe, st, v)
+        return ("string", tuple(toks)) if toks is not None else v
+    raise _Abort("top", "Cow::to_mut is not modelled")
+
+
+def _bytes_family():
+    from .fold import INT_BITS as IB
+
+    def mk(ty, how, endian):
+        n = IB[ty] // 8
+
+        def f(pe, st, args, t):
+            a = args[0]
+            if how == "from":
+                items = _seq_items(pe, a) if a != TOP else None
+                if items is None or len(items) != n or any(x == TOP or x[0] != "int" for x in items):
+                    raise _Abort("top", "%s::from_%s_bytes of unknown bytes" % (ty, endian))
+                bs = [x[2] for x in items]
+                if endian == "le":
+                    bs = bs[::-1]
+                val = 0
+                for b in bs:
+                    val = (val << 8) | b
+                if ty.startswith("i") and val >= 1 << (8 * n - 1):
+                    val -= 1 << (8 * n)
+                return mk_int(ty, val)
+            if a == TOP or a[0] != "int":
+                raise _Abort("top", "%s::to_%s_bytes of an unknown value" % (ty, endian))
+            val = a[2] & ((1 << (8 * n)) - 1)
+            bs = [(val >> (8 * (n - 1 - i))) & 0xFF for i in range(n)]
+            if endian == "le":
+                bs = bs[::-1]
+            return ("array", tuple(mk_int("u8", b) for b in bs))
+        return f
+    for ty in ("u16", "u32", "u64", "u128", "usize", "i16", "i32", "i64"):
+        for endian in ("be", "le", "ne"):
+            e2 = "le" if endian == "ne" else endian  # the analysed target (x86_64) is little-endian
+            PMODELS["core::num::<impl %s>::from_%s_bytes" % (ty, endian)] = mk(ty, "from", e2)
+            PMODELS["core::num::<impl %s>::to_%s_bytes" % (ty, endian)] = mk(ty, "to", e2)
+
+
+_bytes_family()
 
 
 @pmodel("<std::string::String as std::ops::Deref>::deref", "std::string::String::as_str", "std::hint::must_use",
